@@ -36,6 +36,7 @@ type Contract struct {
 	Hofs     map[string]*LoopSpec // caller-side invariants for higher-order loop schemas
 	FnParams map[string][]*Clause // assumed postconditions of function-typed parameters
 	Uses     []string             // lemmas assumed in this function's VCs
+	FnParamReq map[string][]*Clause // obligations at every call of a function-typed parameter
 	Trusted  bool // contract assumed at call sites, body not verified
 	Pure     bool
 	BV       bool
@@ -403,12 +404,20 @@ func (e *Engine) LoadContractFile(file, pkgPath string) error {
 				// fnparam <name> ensures <expr>
 				pn, r1 := splitWord(rest)
 				w, r2 := splitWord(r1)
-				if w != "ensures" {
-					return fail(fmt.Errorf("fnparam <name> ensures <expr>"))
+				if w != "ensures" && w != "requires" {
+					return fail(fmt.Errorf("fnparam <name> ensures|requires <expr>"))
 				}
 				c, err := parseClause(r2)
 				if err != nil {
 					return fail(err)
+				}
+				if w == "requires" {
+					// what the verified function guarantees whenever it calls the parameter
+					if cur.FnParamReq == nil {
+						cur.FnParamReq = map[string][]*Clause{}
+					}
+					cur.FnParamReq[pn] = append(cur.FnParamReq[pn], c)
+					break
 				}
 				if cur.FnParams == nil {
 					cur.FnParams = map[string][]*Clause{}
